@@ -55,7 +55,10 @@ def register(R):
                        # property C14: an accepted input satisfies the acceptance rule
                        ("C14!", ACC.replace("self._input_col_dim", "old(self._input_col_dim)")
                         .replace("self._input_cols", "old(self._input_cols)")),
-                   ] + (["forall(i, 0, brows(X), forall(j, 0, bwidth(X), result[i][j] == bval(X, i, j)))"]
+                   ] + ([
+                       # C18: what a batch detector works on is the batch's rows, each exactly once and whatever their labels
+                       ("C14,C18", "result.shape[0] == brows(X)"),
+                       ("C14,C18", "forall(i, 0, brows(X), forall(j, 0, bwidth(X), result[i][j] == bval(X, i, j)))")]
                         if Q == BD else []),
                    modifies=["_input_cols", "_input_col_dim"])
     R.contract(SD + "._validate_y", tags=("C14",),
